@@ -137,6 +137,21 @@ pub broadcast proof fn b_ascii_cidx(s: Seq<char>, b: int)
     b_ascii_boff(s, b);
     axiom_cidx_boff(s, b);
 }
+/// start and end of any str are char boundaries (proved from vstd's UTF-8 model)
+pub broadcast proof fn b_str_ends_boundary(s: &str)
+    ensures is_char_boundary(#[trigger] s.spec_bytes(), 0), is_char_boundary(s.spec_bytes(), s.spec_bytes().len() as int)
+{
+    encode_utf8_valid_utf8(s@);
+    is_char_boundary_start_end_of_seq(s.spec_bytes());
+}
+pub broadcast proof fn b_cidx_end(s: &str)
+    ensures #[trigger] cidx(s@, s.spec_bytes().len() as int) == s@.len(), cidx(s@, 0) == 0
+{
+    axiom_boff_ends(s);
+    axiom_cidx_boff(s@, s@.len() as int);
+    axiom_cidx_boff(s@, 0);
+}
+pub broadcast group group_bounds { b_str_ends_boundary, b_cidx_end }
 pub broadcast group group_lem { b_asc_intro, b_slice_ok_ascii, b_slice_ascii, b_ascii_len, b_ascii_boff, b_ascii_cidx }
 
 // ------------------------------------------------------------------ digit strings
